@@ -23,4 +23,18 @@ var props = map[string]propCfg{
 		Stub: []string{"the signing server's response (bytes supplied by the harness)", "process death (panic at the crash point + dead disk afterwards)"},
 		RequiredProbes: []string{"crash-full", "crash-half", "crash-zero", "errno-ENOSPC", "short-write", "response-stream-reset", "exempt-in-place"},
 	},
+	"C12": {
+		Level:    "exploration",
+		Quick:    tierCfg{Workers: 16, RunsPerWorker: 500, BudgetS: 40, MinimiseS: 10},
+		Thorough: tierCfg{Workers: 16, RunsPerWorker: 60000, BudgetS: 600, MinimiseS: 60},
+		Rule: "A case = (file length, 0-6 pairwise-disjoint Add(offset, oldSize, blob) calls of kinds same/grow/shrink/insert/delete/noop/to-eof/append, touching or apart, added in ascending or shuffled order) drawn from the seed tape; each case is applied in 4 destination modes (same path, other path absent/present, same path with a second hard link) x 2 routes (PatchSet.Apply directly, and Dump -> [chunked reader] -> signers.ApplyBinPatch -> Load -> Apply) and compared with a 10-line reference splice; then every truncation length of the serialised patch (all of them up to 96 bytes, sampled beyond), a corrupted version field and a flipped blob bit are applied and the op-log of the target is inspected. A separate scenario applies ranges around 2^32 and 2^33 bytes to sparse files. A signature is (mode, route, strategy actually taken, length class, multiset of patch kinds, order) or (truncation class, mode); distinct_nontrivial counts distinct signatures.",
+		Assumptions: []string{
+			"patch sets no builder can produce are not generated: overlapping ranges; equal or touching offsets added out of ascending order (the serialiser's sort does not define their relative order)",
+			"a truncated prefix that still parses (only possible when the cut removes empty trailing blobs) is a different complete patch and nothing is demanded of it",
+			"strategy taken is read off the op-log (a CreateTemp means rewrite)",
+		},
+		Real:           append([]string{"lib/binpatch (Add, Dump, Load, Apply, applyRewrite, canOverwrite/hasLinks), signers.ApplyBinPatch, lib/atomicfile, cmdline/shared.OpenForPatching"}, commonReal...),
+		Stub:           []string{"the server that produced the patch (harness builds it with binpatch.New/Add)", "transport damage (truncation, version corruption, blob bit flip, arbitrary read sizes) injected by the harness"},
+		RequiredProbes: []string{"in-place", "rewrite", "patch-truncated", "patch-version-corrupt", "patch-blob-bitflip", "over-4GiB-range"},
+	},
 }
